@@ -240,29 +240,22 @@ def _scan_rules(repo: Repo, L: Ledger):
         raise AnalysisError("all-against-all scan (callback style) not found in find_overlapping_fragments")
 
     # R3a: the flat list holds every fragment of every scaffold
-    fors = [n for n in scan.node.body if isinstance(n, ast.For)]
-    build = [n for n in fors if norm(n.iter) in ("self.scaffolds",)]
-    ok_build = False
-    listname = None
-    if build:
-        bf = build[0]
-        lv = bf.target.id if isinstance(bf.target, ast.Name) else None
-        simple = all(isinstance(s, ast.Expr) for s in bf.body) and len(bf.body) == 1
-        if simple and isinstance(bf.body[0].value, ast.Call):
-            call = bf.body[0].value
-            if isinstance(call.func, ast.Attribute) and call.func.attr == "extend" and isinstance(call.func.value, ast.Name):
-                g = call.args[0] if call.args else None
-                if isinstance(g, ast.GeneratorExp | ast.ListComp) and len(g.generators) == 1 and not g.generators[0].ifs:
-                    it = g.generators[0].iter
-                    if isinstance(it, ast.Call) and isinstance(it.func, ast.Attribute) and it.func.attr == "fragments" and is_name(it.func.value, lv):
-                        ok_build = True
-                        listname = call.func.value.id
-    L.check(ok_build, "R3", f"{scan.short}:flatten", "flat list = every fragment of every scaffold (unfiltered)", "the scan's work list is not built from all fragments of all scaffolds without a filter", scan.loc())
+    ok_build, listname, why_build, form_build = _flat_list(scan)
+    if ok_build is None:
+        raise AnalysisError(f"{scan.short}: how the scan's work list is built is not understood ({why_build})")
+    L.check(ok_build, "R3", f"{scan.short}:flatten", "flat list = every fragment of every scaffold (unfiltered)", why_build or "the scan's work list is not built from all fragments of all scaffolds without a filter", scan.loc())
     from .shared import check_row_iter
 
     check_row_iter(repo, L, "R3", repo.cls("Scaffold"), "fragments", "Fragment", "row", "yields exactly the Fragment rows", "Scaffold.fragments() no longer yields exactly the rows that are Fragments")
 
-    # R3b: loop ranges
+    # R3b: pairs.  Form 1: `for a, b in itertools.combinations(<flat list>, 2): cb(a, b)` (library semantics: each
+    # unordered pair of positions exactly once)
+    comb = _combinations_form(scan, listname)
+    if comb is not None:
+        okc, whyc = comb
+        L.check(okc, "R3", f"{scan.short}:pairs", "itertools.combinations(flat list, 2): every unordered pair exactly once", whyc, scan.loc())
+        return _callback_rule(repo, L, cb, finder)
+    # Form 2: index loops
     ex = _ScanExec(repo)
     st = State()
     p = scan.params()
@@ -274,6 +267,8 @@ def _scan_rules(repo: Repo, L: Ledger):
     why = ""
     for (node, idx_a, idx_b, ranges, same_list) in calls:
         if not same_list:
+            if not all(isinstance(a, ast.Subscript) for a in node.args[:2]):
+                raise AnalysisError(f"{scan.short}: the callback's arguments are not drawn from the work list by index or by itertools.combinations — pair enumeration not understood")
             ok_pairs, why = False, "callback arguments are not two elements of the same list"
             break
         from ..util import ancestors as _anc
@@ -307,6 +302,74 @@ def _scan_rules(repo: Repo, L: Ledger):
             break
     L.check(ok_pairs, "R3", f"{scan.short}:pairs", "outer i in [0,n), inner j in [i+1,n): every unordered pair exactly once", why, scan.loc(), witness={"n": 3, "pairs expected": "(0,1),(0,2),(1,2)"})
 
+    _callback_rule(repo, L, cb, finder)
+
+
+def _flat_list(scan):
+    """-> (ok | None, listname, why, form): the list of (fragment, scaffold) for every fragment of every scaffold."""
+    def frag_iter(it, lv):
+        return isinstance(it, ast.Call) and isinstance(it.func, ast.Attribute) and it.func.attr == "fragments" and not it.args and is_name(it.func.value, lv)
+
+    body = scan.node.body
+    # (a) L = [elt for s in self.scaffolds for x in s.fragments()]
+    for n in body:
+        if isinstance(n, ast.Assign) and len(n.targets) == 1 and isinstance(n.targets[0], ast.Name) and isinstance(n.value, ast.ListComp):
+            gens = n.value.generators
+            if len(gens) == 2 and norm(gens[0].iter) == "self.scaffolds" and isinstance(gens[0].target, ast.Name) and frag_iter(gens[1].iter, gens[0].target.id):
+                if gens[0].ifs or gens[1].ifs:
+                    return False, n.targets[0].id, "the scan's work list is built with a filter: some fragments are never compared", "listcomp"
+                return True, n.targets[0].id, "", "listcomp"
+    # (b) for s in self.scaffolds: L.extend(<gen over s.fragments()>)  |  for x in s.fragments(): L.append(...)
+    for bf in body:
+        if not (isinstance(bf, ast.For) and norm(bf.iter) == "self.scaffolds" and isinstance(bf.target, ast.Name)):
+            continue
+        lv = bf.target.id
+        if len(bf.body) != 1:
+            return False, None, "the loop building the scan's work list does more than collect the fragments (conditional / filtered)", "loop"
+        st = bf.body[0]
+        if isinstance(st, ast.Expr) and isinstance(st.value, ast.Call) and isinstance(st.value.func, ast.Attribute) and st.value.func.attr == "extend" and isinstance(st.value.func.value, ast.Name):
+            g = st.value.args[0] if st.value.args else None
+            if isinstance(g, ast.GeneratorExp | ast.ListComp) and len(g.generators) == 1 and frag_iter(g.generators[0].iter, lv):
+                if g.generators[0].ifs:
+                    return False, st.value.func.value.id, "the scan's work list is built with a filter: some fragments are never compared", "extend"
+                return True, st.value.func.value.id, "", "extend"
+            return False, st.value.func.value.id, "the scan's work list is not extended with every fragment of the scaffold", "extend"
+        if isinstance(st, ast.For) and frag_iter(st.iter, lv):
+            if len(st.body) == 1 and isinstance(st.body[0], ast.Expr) and isinstance(st.body[0].value, ast.Call) and isinstance(st.body[0].value.func, ast.Attribute) and st.body[0].value.func.attr == "append" and isinstance(st.body[0].value.func.value, ast.Name):
+                return True, st.body[0].value.func.value.id, "", "append"
+            return False, None, "the scan's work list is built with a filter: some fragments are never compared", "append"
+        return False, None, "the scan's work list is not built from all fragments of all scaffolds without a filter", "loop"
+    return None, None, "no loop over self.scaffolds and no comprehension over it", None
+
+
+def _combinations_form(scan, listname):
+    """-> None when the scan does not use itertools.combinations; else (ok, why)"""
+    for lp in scan.node.body:
+        if not (isinstance(lp, ast.For) and isinstance(lp.iter, ast.Call) and (dotted(lp.iter.func) or "").split(".")[-1] == "combinations"):
+            continue
+        d = dotted(lp.iter.func)
+        if d not in ("itertools.combinations", "combinations"):
+            continue
+        a = lp.iter.args
+        if not (len(a) == 2 and isinstance(a[1], ast.Constant) and a[1].value == 2):
+            return False, f"pairs drawn with {norm(lp.iter)}: not the 2-element combinations"
+        if not (isinstance(a[0], ast.Name) and a[0].id == listname):
+            return False, f"pairs are drawn from '{norm(a[0])}', not from the flat list '{listname}' of all fragments"
+        if not (isinstance(lp.target, ast.Tuple) and len(lp.target.elts) == 2 and all(isinstance(e, ast.Name) for e in lp.target.elts)):
+            return None
+        x, y = (e.id for e in lp.target.elts)
+        from .shared import is_noise
+
+        stmts = [s for s in lp.body if not is_noise(s)]
+        if len(stmts) == 1 and isinstance(stmts[0], ast.Expr) and isinstance(stmts[0].value, ast.Call) and isinstance(stmts[0].value.func, ast.Name):
+            c = stmts[0].value
+            if c.func.id == scan.params()[1] and len(c.args) == 2 and {norm(c.args[0]), norm(c.args[1])} == {x, y}:
+                return True, ""
+        return False, "not every pair of the combinations is handed to the comparison callback (conditional or altered call)"
+    return None
+
+
+def _callback_rule(repo, L, cb, finder):
     # R4: callback records iff overlaps
     frag = repo.cls("Fragment")
     ps = paths(cb, (0, 1), exc_edges=False)
